@@ -1191,7 +1191,7 @@ func init() {
 		true, Budget{Shards: 1}, Budget{Shards: 1}, enumSmallWordSets, checkBuildCase)
 	RegisterRapid("C13_search",
 		"rapid: word set as in C12 (one case in eight over twenty letters with words below nearly every letter so that nodes have 15+ links, one in eight with words of up to 34/40/70 letters) x 0..3 searchers, each a pattern or an anagram built from a stored word or from random letters (incl. one letter outside the alphabet), letters turned into blanks with probability 1/4, blank byte sometimes equal to a real letter. Oracle: filter of the sorted word list with matchers written from the doc comments, paired with list index. Search must return exactly that, the same again with the same searcher objects, and leave the Dawg (node dump, Lookup, NumberOfWords) unchanged. Non-trivial: some but not all words match, or a query mixes blanks and letters.",
-		Budget{Checks: 4000, Shards: 1}, Budget{Checks: 300000, Shards: 16}, genSearchCase, checkSearchCase)
+		Budget{Checks: 4000, Shards: 1}, Budget{Checks: 100000, Shards: 16}, genSearchCase, checkSearchCase)
 	RegisterEnum("C14_tiny_sets",
 		"enumeration: every subset of {\"\", a, b, ab, ba, abc} (64 sets incl. the empty set and {\"\"}) through the same round-trip checks as C14_gob_roundtrip. Complete for that family.",
 		true, Budget{Shards: 1}, Budget{Shards: 1},
